@@ -117,7 +117,7 @@ func DeepCast(val Value, typ ast.Type, span errors.Span, allowCasts bool) (*Valu
 			return &val, nil
 		}
 	case ObjectValueKind:
-		if !allowCasts && typ.Kind() != ast.ObjectTypeKind {
+		if !allowCasts && typ.Kind() != ast.ObjectTypeKind && typ.Kind() != ast.AnyObjectTypeKind {
 			return nil, NewRuntimeErr(
 				fmt.Sprintf("Incompatible values: a value of type '%s' is not compatible with a value of type '%s'", val.Kind(), typ),
 				CastErrorKind,
